@@ -591,6 +591,8 @@ class Node:
 
     def _flag_peer_as_connected(self, conn: PeerConnection):
         conn.state = PEER_CONNECTED
+        # the CEA timeout starts now, not when the socket was created
+        conn.reset_last_read()
         peer = self._find_connection_peer(conn)
         if peer:
             peer.last_connect = int(time.time())
